@@ -442,7 +442,7 @@ def utf8_ok(b: bytes) -> bool:
 
 def op_wf(rc, op) -> bool:
     if op[0] == "S":
-        _, opcode, override, _, hx = op
+        _, opcode, override, _, hx = op[:5]
         p = bytes.fromhex(hx)
         if opcode in (OP_TEXT, OP_BINARY):
             if override and not (9 <= override <= 15):
@@ -475,8 +475,11 @@ def judge(case, r):
     acc = [i for i, t in enumerate(r["tags"]) if t != "R"]
     if r.get("modified"):
         i = r["modified"][0]
+        exp_ = [expected(ops[k]) for k in acc if op_wf(rc, ops[k])] if all(op_wf(rc, ops[k]) for k in acc) else None
+        same = None if exp_ is None else sum(1 for a, b in zip(exp_, r["msgs"]) if a == b)
         return (f"send_frame changed the application's own payload buffer (operation {i}, "
-                f"{ops[i][5][1] if len(ops[i]) > 5 else '?'} of {len(ops[i][4]) // 2} bytes): the buffer no longer holds what was sent",
+                f"{ops[i][5][1] if len(ops[i]) > 5 else '?'} of {len(ops[i][4]) // 2} bytes): the buffer no longer holds what was sent"
+                + ("" if exp_ is None else f"; {same}/{len(exp_)} messages arrived with the payload supplied at send time"),
                 {"first_bad_op": i, "status": r["status"], "first_bad": None, "tags": r["tags"], "buffer_modified": True})
     closing = False
     for i, op in enumerate(ops):
